@@ -17,28 +17,38 @@ macro_rules! inst {
     };
     (@one [] $name:ident, $f:ident, $($n:literal),*) => {
         #[cfg_attr(kani, kani::proof)]
+        #[cfg_attr(kani, kani::stub(core::slice::sort::unstable::sort, $crate::stubs::unstable_sort_model))]
         pub fn $name() { $f::<$($n),*>() }
     };
     (@one [stub_sort_char] $name:ident, $f:ident, $($n:literal),*) => {
         #[cfg_attr(kani, kani::proof)]
-        #[cfg_attr(kani, kani::stub(<[char]>::sort_unstable, $crate::stubs::insertion_sort))]
+        #[cfg_attr(kani, kani::stub(core::slice::sort::unstable::sort, $crate::stubs::unstable_sort_model))]
         pub fn $name() { $f::<$($n),*>() }
     };
 }
 
 pub mod build;
+pub mod txt;
 pub mod model;
 pub mod jaccard;
 pub mod dl;
 pub mod probe;
+pub mod probe2;
 pub mod ls;
+pub mod idx;
+pub mod store;
+pub mod tm;
 
 pub fn registry() -> Vec<(&'static str, fn())> {
     let mut v = Vec::new();
     v.extend_from_slice(jaccard::ALL);
     v.extend_from_slice(dl::ALL);
     v.extend_from_slice(probe::ALL);
+    v.extend_from_slice(probe2::ALL);
     v.extend_from_slice(ls::ALL);
     v.extend_from_slice(ls::ALL2);
+    v.extend_from_slice(idx::ALL);
+    v.extend_from_slice(store::ALL);
+    v.extend_from_slice(tm::ALL);
     v
 }
